@@ -117,6 +117,19 @@ def run(ctx):
                      note='history: the score of the needed mark depends on earlier calls with the English Schools option',
                      replay_py='p = athlib.athlon_performance_needed("M", "800", %d)\nathlib.athlon_score("M", "800", p, esaa=True)\nresult = (p, athlib.athlon_score("M", "800", p))' % s)
     ctx.count(nh, 'history_calls')
+    # glue: a pair that is unknown because the event is not a text at all (nothing read, a byte string, a number that
+    # names no row, a tuple): no answer, never an error
+    ng = 0
+    for g in ('M', 'F'):
+        for e in (None, b'100', 5.0, ('LJ',), b'', 0):
+            for s in (0, 1, 500, 1000):
+                ng += 1
+                try: got = athlib.athlon_performance_needed(g, e, s)
+                except Exception as ex: got = 'raises ' + type(ex).__name__
+                if got is not None:
+                    ctx.fail('athlib.athlon_performance_needed', [g, repr(e), s], 'None (no such pair)', repr(got), note='unknown pair: the event is not a text',
+                             replay_py='result = athlib.athlon_performance_needed(%r, %r, %r)' % (g, e, s))
+    ctx.count(ng, 'glue_calls')
     ctx.stats['disagreements'] = nd
     ctx.distinct = set(range(nont))
     if nd == 0:
